@@ -115,19 +115,20 @@ Definition canonical (s : N) (l : list obs) : Prop :=
 Lemma run_seq_canonical c h : canonical c (run_seq c h).
 Proof.
   unfold canonical. revert c; induction h as [|e h IH]; intros c; [reflexivity|].
-  destruct e as [r|j]; cbn [run_seq].
+  destruct e as [r|j|q i]; cbn [run_seq].
   - unfold issue1. destruct (is_auto r) eqn:Ea.
     + destruct (new_id c) as [c' id] eqn:En. cbn [auto_ids]. rewrite Ea. cbn [length issued_list].
       destruct (new_id_spec c c' id En) as (H1 & H2 & _ & _).
       rewrite IH at 1. rewrite (issued_list_shift c c' H2). rewrite H1. reflexivity.
     + cbn [auto_ids]. rewrite Ea. apply IH.
   - cbn [auto_ids]. apply IH.
+  - apply IH.
 Qed.
 
 Lemma run_conc_canonical c progs sched : canonical c (run_conc c progs sched).
 Proof.
   unfold canonical. revert c progs; induction sched as [|e sched IH]; intros c progs; [reflexivity|].
-  destruct e as [k|j]; cbn [run_conc]; [|cbn [auto_ids]; apply IH].
+  destruct e as [k|j|q i]; cbn [run_conc]; [|cbn [auto_ids]; apply IH|apply IH].
   unfold step_caller. destruct (nth_error progs k) as [[|r rest]|]; [apply IH| |apply IH].
   destruct (is_auto r) eqn:Ea.
   - destruct (add1 c mod M16 =? 0) eqn:E.
@@ -161,7 +162,7 @@ Qed.
 Lemma final_counter_lt c h : c < M32 -> final_counter c h < M32.
 Proof.
   revert c; induction h as [|e h IH]; intros c Hc; [exact Hc|].
-  destruct e as [r|j]; cbn [final_counter]; [|apply IH; exact Hc].
+  destruct e as [r|j|q i]; cbn [final_counter]; [|apply IH; exact Hc|apply IH; exact Hc].
   apply IH. unfold issue1. destruct (is_auto r); [|exact Hc].
   destruct (new_id c) as [c' id] eqn:En. destruct (new_id_spec c c' id En) as (_ & _ & H & _). exact H.
 Qed.
@@ -286,7 +287,7 @@ Proof. intros H. rewrite H. apply issued_list_chain. apply issued_first. Qed.
 Lemma run_seq_given_kept c h : given_kept (run_seq c h) = true.
 Proof.
   unfold given_kept. revert c; induction h as [|e h IH]; intros c; [reflexivity|].
-  destruct e as [r|j]; cbn [run_seq]; [|cbn [forallb]; apply IH].
+  destruct e as [r|j|q i]; cbn [run_seq]; [|cbn [forallb]; apply IH|apply IH].
   unfold issue1. destruct (is_auto r) eqn:Ea.
   - destruct (new_id c) as [c' id]. cbn [forallb]. rewrite Ea, IH. reflexivity.
   - cbn [forallb]. rewrite Ea, N.eqb_refl, IH. reflexivity.
@@ -295,14 +296,14 @@ Qed.
 Lemma run_conc_given_kept c progs sched : given_kept (run_conc c progs sched) = true.
 Proof.
   unfold given_kept. revert c progs; induction sched as [|e sched IH]; intros c progs; [reflexivity|].
-  destruct e as [k|j]; cbn [run_conc]; [|cbn [forallb]; apply IH].
+  destruct e as [k|j|q i]; cbn [run_conc]; [|cbn [forallb]; apply IH|apply IH].
   unfold step_caller. destruct (nth_error progs k) as [[|r rest]|]; [apply IH| |apply IH].
   destruct (is_auto r) eqn:Ea.
   - destruct (add1 c mod M16 =? 0); [apply IH|]. cbn [forallb]. rewrite Ea, IH. reflexivity.
   - cbn [forallb]. rewrite Ea, N.eqb_refl, IH. reflexivity.
 Qed.
 
-Definition not_given (e : hev) : bool := match e with HReq r => is_auto r | HAck _ => true end.
+Definition not_given (e : hev) : bool := match e with HReq r => is_auto r | _ => true end.
 
 (* requests that carry their own identifier do not move the counter: the identifiers chosen for
    the other requests are the same with or without them *)
@@ -311,12 +312,13 @@ Lemma run_seq_given_transparent c h :
   final_counter c h = final_counter c (filter not_given h).
 Proof.
   revert c; induction h as [|e h IH]; intros c; [split; reflexivity|].
-  destruct e as [r|j]; cbn [filter not_given].
+  destruct e as [r|j|q i]; cbn [filter not_given].
   - destruct (is_auto r) eqn:Ea; cbn [run_seq final_counter]; unfold issue1; rewrite Ea.
     + destruct (new_id c) as [c' id]. cbn [auto_ids fst]. rewrite Ea.
       destruct (IH c') as [H1 H2]. rewrite H1, H2. split; reflexivity.
     + cbn [auto_ids fst]. rewrite Ea. apply IH.
   - cbn [run_seq final_counter auto_ids]. apply IH.
+  - cbn [run_seq final_counter]. apply IH.
 Qed.
 
 (* ================= the strict reading fails: finding F13 ================= *)
@@ -525,7 +527,7 @@ Proof.
   cbn [interrupt handle_req]. revert b. induction hB as [|e h IH]; intros b.
   - cbn [app final_counter]. unfold issue1 at 1. cbn [is_auto].
     apply N.eqb_neq in Hnz. rewrite Hnz. reflexivity.
-  - destruct e as [r|j]; cbn [app final_counter]; apply IH.
+  - destruct e as [r|j|q0 i]; cbn [app final_counter]; apply IH.
 Qed.
 
 Example ex_handle : (* A at 100: SUBSCRIBE took 101; B at 100 holds 101 and 102; the retransmission takes 103 from B *)
@@ -535,7 +537,7 @@ Proof. vm_compute; reflexivity. Qed.
 
 (* ================= identifiers are never stepped back ================= *)
 
-Definition is_hreq (e : hev) : bool := match e with HReq _ => true | HAck _ => false end.
+Definition is_hreq (e : hev) : bool := match e with HReq _ => true | _ => false end.
 
 (* the identifiers handed out are a function of the number of newID calls only: how and when
    requests END — acknowledged, abandoned by the caller, or failed because their write was rejected
@@ -547,8 +549,24 @@ Lemma ids_ignore_ends s h :
   final_counter s h = final_counter s (filter is_hreq h).
 Proof.
   revert s; induction h as [|e h IH]; intros s; [split; reflexivity|].
-  destruct e as [r|j]; cbn [filter is_hreq run_seq final_counter].
+  destruct e as [r|j|q i]; cbn [filter is_hreq run_seq final_counter].
   - destruct (issue1 s r) as [s' id] eqn:E. cbn [auto_ids fst].
     destruct (IH s') as [H1 H2]. rewrite H1, H2. split; reflexivity.
   - cbn [auto_ids]. apply IH.
+  - apply IH.
+Qed.
+
+(* the same for the concurrent model: inbound packets and acknowledgements can be dropped from a
+   schedule without changing the identifiers *)
+Definition is_lstep (l : label) : bool := match l with LStep _ => true | _ => false end.
+
+Lemma conc_ignores_inbound c progs sched :
+  auto_ids (run_conc c progs sched) = auto_ids (run_conc c progs (filter is_lstep sched)).
+Proof.
+  revert c progs; induction sched as [|e sched IH]; intros c progs; [reflexivity|].
+  destruct e as [k|j|q i]; cbn [filter is_lstep run_conc].
+  - destruct (step_caller c progs k) as [[c' progs'] o]. destruct o as [e|]; [|apply IH].
+    destruct e as [k' r id|j']; cbn [auto_ids]; rewrite IH; reflexivity.
+  - cbn [auto_ids]. apply IH.
+  - apply IH.
 Qed.
